@@ -3,12 +3,14 @@ use crate::driver::Check;
 pub mod c03;
 pub mod c04;
 pub mod c05;
+pub mod c06;
 pub mod c11;
 pub mod c12;
+pub mod c19;
 pub mod prog;
 
 pub fn registry() -> Vec<&'static dyn Check> {
-    vec![&prog::C01, &prog::C02, &c03::C03, &c04::C04, &c05::C05, &prog::C07, &prog::C08, &prog::C09, &c11::C11, &c12::C12]
+    vec![&prog::C01, &prog::C02, &c03::C03, &c04::C04, &c05::C05, &c06::C06, &prog::C07, &prog::C08, &prog::C09, &c11::C11, &c12::C12, &c19::C19]
 }
 
 pub fn find(id: &str) -> Option<&'static dyn Check> {
